@@ -18,7 +18,11 @@ import (
 // (b) every loader.Config literal sets AllowErrors: true. (c) nothing in the driver reads a package's Errors list: with
 // AllowErrors the loader tolerates type and syntax errors — derived.gen.go may be a truncated remnant — and a run must not
 // fail because of them.
-func g16Load(r *Repo, rep *Report) {
+func g16Load(c *Ctx) {
+	r, rep := c.Repo, c.Rep
+	// while the previous output is hidden from go/build (G22, remnant clause) no error of the loaded packages can stem from it:
+	// looking for *syntax* errors (go/scanner) in the Errors list then only concerns the user's own files
+	remnantHarmless := staleHidden(c).invalid
 	n := 0
 	for _, b := range r.bodies() {
 		if b.Pkg.Name != "derive" && b.Pkg.Name != "main" {
@@ -88,6 +92,11 @@ func g16Load(r *Repo, rep *Report) {
 				if sel, ok := info.Selections[x]; ok && sel.Kind() == types.FieldVal {
 					if v, ok := sel.Obj().(*types.Var); ok && v.Pkg() != nil && strings.HasSuffix(v.Pkg().Path(), "go/loader") {
 						n++
+						if remnantHarmless && syntaxOnlyUse(b, info, x) {
+							rep.pass("G16")
+							rep.sample(map[string]string{"rule": "G16 Errors list examined for syntax errors only, previous output hidden", "site": r.pos(x.Pos())})
+							return true
+						}
 						rep.fail(Finding{Rule: "G16", Key: "G16|load|" + b.Name + "|reads-errors", Where: []string{r.pos(x.Pos())},
 							Msg: b.Name + " reads the Errors list of a loaded package: the loader is configured to tolerate errors because derived.gen.go may be stale, truncated or missing functions; acting on them makes a run fail (or change behaviour) because of the previous output"})
 					}
@@ -438,42 +447,10 @@ func g17StaleArgTypes(c *Ctx) {
 			return true
 		})
 	}
-	// the types a call is registered with are the call site's: nothing on the way from newCall to the argument types may look
-	// the called function up (Uses/Defs/ObjectOf) and read its declared signature — for a previously derived function that is
-	// the previous output's signature
-	for _, k := range []string{"derive.newCall", "derive.getInputTypes"} {
-		seen2 := map[*types.Func]bool{}
-		var q []*FuncInfo
-		if fi := r.lookup(k); fi != nil {
-			q = append(q, fi)
-			seen2[fi.Fn] = true
-		}
-		for len(q) > 0 {
-			fi := q[0]
-			q = q[1:]
-			info := fi.Pkg.TypesInfo
-			ast.Inspect(fi.Decl.Body, func(m ast.Node) bool {
-				switch x := m.(type) {
-				case *ast.IndexExpr:
-					if sel, ok := x.X.(*ast.SelectorExpr); ok && (sel.Sel.Name == "Uses" || sel.Sel.Name == "Defs") {
-						rep.fail(Finding{Rule: "G17", Key: "G17|arg-types-from-declaration|" + funcKey(fi.Fn), Where: []string{r.pos(x.Pos())},
-							Msg: funcKey(fi.Fn) + " looks an identifier up in the type checker's " + sel.Sel.Name + " map while computing the argument types of a call: if that is the called function, its parameter types come from the existing derived.gen.go, so a retyped argument that is still assignable to the old parameter keeps the old signature alive (the output differs from the one generated from scratch)"})
-					}
-				case *ast.CallExpr:
-					if sel, ok := x.Fun.(*ast.SelectorExpr); ok && (sel.Sel.Name == "ObjectOf" || sel.Sel.Name == "Lookup") {
-						rep.fail(Finding{Rule: "G17", Key: "G17|arg-types-from-declaration|" + funcKey(fi.Fn), Where: []string{r.pos(x.Pos())},
-							Msg: funcKey(fi.Fn) + " resolves an identifier (" + sel.Sel.Name + ") while computing the argument types of a call: argument types must come from the argument expressions only, never from the declaration of the called function, which for a derived function is the previous output"})
-					}
-					if fn, ok := callee(info, x).(*types.Func); ok && !seen2[fn] {
-						if cfi := r.Decls[fn]; cfi != nil && cfi.Decl.Body != nil && cfi.Pkg.Name == "derive" {
-							seen2[fn] = true
-							q = append(q, cfi)
-						}
-					}
-				}
-				return true
-			})
-		}
+	// with the previous output hidden, a declaration the type checker knows for a derive function is this run's own: the rule
+	// then belongs to C11 (a conflicting call must be detected, not silently typed after the existing function) and is run there
+	if !staleHidden(c).goFiles {
+		g17ArgTypesFromDeclaration(c)
 	}
 	rep.analysed("arg_type_functions", n)
 	if h := staleHidden(c); h.goFiles {
@@ -805,5 +782,104 @@ func g21ReserveEveryCalledName(r *Repo, rep *Report) {
 	rep.analysed("visit_early_exits", n)
 	if n < 4 {
 		rep.fail(Finding{Rule: "G21", Key: "G21|reserve|floor", Kind: "undecided", Where: []string{r.pos(visit.Decl.Pos())}, Msg: "fewer early exits in (*finder).Visit than confirmed by hand"})
+	}
+}
+
+// syntaxOnlyUse: the Errors list is ranged over and each element is used only as the operand of a type assertion (or type
+// switch) to a type of go/scanner.
+func syntaxOnlyUse(b *Body, info *types.Info, errs *ast.SelectorExpr) bool {
+	var rng *ast.RangeStmt
+	inspectOwn(b.Block, func(m ast.Node) bool {
+		if rs, ok := m.(*ast.RangeStmt); ok && ast.Unparen(rs.X) == ast.Expr(errs) {
+			rng = rs
+		}
+		return true
+	})
+	if rng == nil || rng.Value == nil {
+		return false
+	}
+	vid, ok := rng.Value.(*ast.Ident)
+	if !ok {
+		return false
+	}
+	vObj := info.Defs[vid]
+	asserted := map[*ast.Ident]bool{}
+	okAll := true
+	isScanner := func(t types.Type) bool {
+		if pt, ok := t.(*types.Pointer); ok {
+			t = pt.Elem()
+		}
+		nt, ok := t.(*types.Named)
+		return ok && nt.Obj().Pkg() != nil && nt.Obj().Pkg().Path() == "go/scanner"
+	}
+	ast.Inspect(rng.Body, func(m ast.Node) bool {
+		if ta, ok := m.(*ast.TypeAssertExpr); ok && ta.Type != nil {
+			if id, ok := ast.Unparen(ta.X).(*ast.Ident); ok && info.Uses[id] == vObj && isScanner(info.TypeOf(ta.Type)) {
+				asserted[id] = true
+			}
+		}
+		return true
+	})
+	uses := 0
+	ast.Inspect(rng.Body, func(m ast.Node) bool {
+		if id, ok := m.(*ast.Ident); ok && info.Uses[id] == vObj {
+			uses++
+			if !asserted[id] {
+				okAll = false
+			}
+		}
+		return true
+	})
+	return okAll && uses > 0
+}
+
+// g17ArgTypesFromDeclaration — the types a call is registered with are the call site's: nothing on the way from newCall to the
+// argument types may look the called function up (Uses/Defs/ObjectOf) and read its declared signature. For a previously derived
+// function that is the previous output's signature (C07); for one generated earlier in this run it makes a later call with an
+// assignable-but-different argument type pass as the same registration, so that the conflict is not reported (C11).
+func g17ArgTypesFromDeclaration(c *Ctx) {
+	r, rep := c.Repo, c.Rep
+	found := 0
+	// the types a call is registered with are the call site's: nothing on the way from newCall to the argument types may look
+	// the called function up (Uses/Defs/ObjectOf) and read its declared signature — for a previously derived function that is
+	// the previous output's signature
+	for _, k := range []string{"derive.newCall", "derive.getInputTypes"} {
+		seen2 := map[*types.Func]bool{}
+		var q []*FuncInfo
+		if fi := r.lookup(k); fi != nil {
+			q = append(q, fi)
+			seen2[fi.Fn] = true
+		}
+		for len(q) > 0 {
+			fi := q[0]
+			q = q[1:]
+			info := fi.Pkg.TypesInfo
+			ast.Inspect(fi.Decl.Body, func(m ast.Node) bool {
+				switch x := m.(type) {
+				case *ast.IndexExpr:
+					if sel, ok := x.X.(*ast.SelectorExpr); ok && (sel.Sel.Name == "Uses" || sel.Sel.Name == "Defs") {
+						found++
+						rep.fail(Finding{Rule: "G17", Key: "G17|arg-types-from-declaration|" + funcKey(fi.Fn), Where: []string{r.pos(x.Pos())},
+							Msg: funcKey(fi.Fn) + " looks an identifier up in the type checker's " + sel.Sel.Name + " map while computing the argument types of a call: if that is the called function, its parameter types come from the existing derived.gen.go, so a retyped argument that is still assignable to the old parameter keeps the old signature alive (the output differs from the one generated from scratch)"})
+					}
+				case *ast.CallExpr:
+					if sel, ok := x.Fun.(*ast.SelectorExpr); ok && (sel.Sel.Name == "ObjectOf" || sel.Sel.Name == "Lookup") {
+						found++
+						rep.fail(Finding{Rule: "G17", Key: "G17|arg-types-from-declaration|" + funcKey(fi.Fn), Where: []string{r.pos(x.Pos())},
+							Msg: funcKey(fi.Fn) + " resolves an identifier (" + sel.Sel.Name + ") while computing the argument types of a call: argument types must come from the argument expressions only, never from the declaration of the called function, which for a derived function is the previous output"})
+					}
+					if fn, ok := callee(info, x).(*types.Func); ok && !seen2[fn] {
+						if cfi := r.Decls[fn]; cfi != nil && cfi.Decl.Body != nil && cfi.Pkg.Name == "derive" {
+							seen2[fn] = true
+							q = append(q, cfi)
+						}
+					}
+				}
+				return true
+			})
+		}
+	}
+	if found == 0 {
+		rep.pass("G17")
 	}
 }
